@@ -19,6 +19,7 @@ Clauses of the property:
 -/
 import OccaProofs.Lemmas.CppCond
 import OccaProofs.Lemmas.CppExpand
+import OccaProofs.Lemmas.CppObj
 import OccaModel.Cpp
 
 namespace Occa.Cpp.C13
@@ -152,6 +153,27 @@ theorem C13_expand_terminates_full_fails : ¬ C13_expand_terminates_full := by
   intro h
   obtain ⟨n, hn⟩ := h true tblFG [tId "f", tOp "(", tNum "1", tOp ")"]
   exact hn (expand_fg_diverges true n)
+
+/-- PARTIAL (the strongest termination statement proved): on every table of OBJECT-LIKE macros — whatever
+    they refer to: chains, cycles, self-reference, empty bodies — every line is expanded with finitely much
+    fuel.  (Measure: the sum over the pending tokens of their complete-expansion weight relative to the
+    macros enabled when they will be processed; it drops by one per expansion.)  Function-like macros are
+    excluded by the counter-example above; `defined` is excluded because that identifier is a built-in
+    function-like macro. -/
+theorem C13_expand_terminates_partial (vc : Bool) (tbl : List Macro) (toks : List Tok) (hobj : ObjTable tbl)
+    (hnd : NoDefined vc tbl) (ht : ∀ t ∈ toks, t.text ≠ "defined") :
+    ∃ n, expandLine vc n { table := tbl } toks ≠ .outOfFuel := by
+  obtain ⟨n, r, h⟩ := expandLine_obj_terminates vc tbl toks hobj hnd ht
+  exact ⟨n, by rw [h]; simp⟩
+
+example : ObjTable [⟨"A", false, 0, false, [.raw (tId "B"), .raw (tId "A")], false⟩,
+                    ⟨"B", false, 0, false, [.raw (tId "A")], false⟩] ∧
+          NoDefined true [⟨"A", false, 0, false, [.raw (tId "B"), .raw (tId "A")], false⟩,
+                          ⟨"B", false, 0, false, [.raw (tId "A")], false⟩] := by
+  constructor
+  · intro m hm; simp at hm; rcases hm with rfl | rfl <;> simp
+  · intro m hm t ht; simp at hm; rcases hm with rfl | rfl <;> simp [objBody, subst] at ht <;>
+      (rcases ht with rfl | rfl <;> decide) <;> (subst ht; decide)
 
 /-- FULL statement (agreement): whenever both algorithms finish they produce the same tokens -/
 def C13_expand_agrees_full : Prop :=
